@@ -70,13 +70,16 @@ def main():
     missed = [r for r in results if r.get("result") != "caught"]
     print("selftest: %d changes, %d caught, %d not caught" % (len(results), len(results) - len(missed), len(missed)))
     outp = os.path.join(V, "selftest_results.json")
-    old = {}
-    if os.path.exists(outp):
-        old = {r["name"]: r for r in json.load(open(outp))}
-    for r in results:
-        r.pop("patch", None)
-        old[r["name"]] = r
-    json.dump(sorted(old.values(), key=lambda r: r["name"]), open(outp, "w"), indent=1)
+    import fcntl
+    with open(outp + ".lock", "w") as lk:          # several selftests may finish at the same time
+        fcntl.flock(lk, fcntl.LOCK_EX)
+        old = {}
+        if os.path.exists(outp):
+            old = {r["name"]: r for r in json.load(open(outp))}
+        for r in results:
+            r.pop("patch", None)
+            old[r["name"]] = r
+        json.dump(sorted(old.values(), key=lambda r: r["name"]), open(outp, "w"), indent=1)
     sys.exit(1 if missed else 0)
 
 main()
